@@ -419,6 +419,16 @@ func (x *X) external(fr *Frame, st *State, fn *ssa.Function, args []SV, cc *ssa.
 		if it, ok := args[0].(*IterV); ok {
 			return []SV{x.collectMap(st, it, fn)}
 		}
+	case "(*math/big.Rat).Float64":
+		// the nearest float64 (possibly an infinity) and whether it is exact; never NaN
+		f := x.vc.fresh("ratf64", SF64)
+		x.vc.assume(mkNot(app(SBool, "fp.isNaN", f)))
+		x.enc.assumption("math/big: (*Rat).Float64 returns the nearest float64, which may be infinite but is never NaN")
+		return []SV{f, x.vc.fresh("ratexact", SBool)}
+	case "slices.Sorted":
+		if it, ok := args[0].(*IterV); ok && it.kind == "mapkeys" {
+			return []SV{x.sortedKeys(st, it, fn)}
+		}
 	case "maps.Values", "maps.Keys":
 		kind := "mapvalues"
 		if name == "maps.Keys" {
@@ -730,6 +740,36 @@ func (x *X) collectMap(st *State, it *IterV, fn *ssa.Function) Term {
 		}
 	}
 	return x.vc.define("collected", res)
+}
+
+// sortedKeys models slices.Sorted(maps.Keys(m)): a fresh slice of len(m)
+// distinct keys of m; which key stands at position i is a function of the map
+// alone (sorted_key), not of the call.
+func (x *X) sortedKeys(st *State, it *IterV, fn *ssa.Function) Term {
+	isz := x.enc.isz()
+	rt := fn.Signature.Results().At(0).Type()
+	var ks, vs Sort = SStr, SAny
+	has, _, lenk := x.mapKeys(ks, vs)
+	ln := x.vc.define("maplen", mkIte(mkEq(it.m, intLit(0)), x.ic(0), mkSelect(x.get(st, lenk), it.m, isz)))
+	x.vc.assume(x.ile(x.ic(0), ln))
+	x.vc.assume(x.ile(ln, x.ic(0x3fffffffffffffff)))
+	r := x.newRef(st, "sortedkeys")
+	k := x.elemsKey(SStr)
+	inner := x.vc.fresh("sortedkeys", arraySort(isz, SStr))
+	st.mem[k] = x.vc.define("h", mkStore(x.get(st, k), r, inner))
+	cp := x.vc.fresh("sortedcap", isz)
+	x.vc.assume(x.ile(ln, cp))
+	x.vc.assume(x.ile(cp, x.ic(0x3fffffffffffffff)))
+	res := mkIte(mkEq(ln, x.ic(0)), x.enc.zero(rt), x.mkSlice(r, x.ic(0), ln, cp))
+	x.enc.assumption("slices.Sorted(maps.Keys(m)): a slice of the len(m) distinct keys of m in an order that depends on m alone; nil when m is empty")
+	if !x.enc.bv {
+		_ = x.ufS("ext_sorted_key", SStr, it.m, x.ic(0))
+		x.vc.assume(T(SBool, fmt.Sprintf("(forall ((i Int)) (! (=> (and (<= 0 i) (< i %s)) (and (= (select %s i) (ext_sorted_key %s i)) (select (select %s %s) (select %s i)))) :pattern ((select %s i))))",
+			ln.S, inner.S, it.m.S, x.get(st, has).S, it.m.S, inner.S, inner.S)))
+		x.vc.assume(T(SBool, fmt.Sprintf("(forall ((i Int) (j Int)) (! (=> (and (<= 0 i) (< i j) (< j %s)) (not (= (ext_sorted_key %s i) (ext_sorted_key %s j)))) :pattern ((ext_sorted_key %s i) (ext_sorted_key %s j))))",
+			ln.S, it.m.S, it.m.S, it.m.S, it.m.S)))
+	}
+	return x.vc.define("sortedkeys", res)
 }
 
 // builderCall: strings.Builder is an opaque append-only buffer.
